@@ -235,19 +235,22 @@ def gen_case(rng, nsteps: int, p_bad: float = 0.12) -> Dict[str, Any]:
                 break
         arg, sid = v
         steps.append({"handle": rng.choice(["A", "A", "B", "fresh"]), "variant": vname, "arg": arg, "sid": sid,
-                      "records": gen_records(rng, arg if arg is not None else fields, p_bad)})
+                      "records": gen_records(rng, arg if arg is not None else fields, p_bad),
+                      "commit_fails": rng.random() < 0.06})
     return {"fields": fields, "steps": steps}
 
 
 def case_json(case: Dict[str, Any]) -> Dict[str, Any]:
     return {"fields": case["fields"],
             "steps": [{"handle": s["handle"], "variant": s["variant"], "arg": s["arg"], "sid": s["sid"],
+                       "commit_fails": bool(s.get("commit_fails")),
                        "records": [enc_record(r) for r in s["records"]]} for s in case["steps"]]}
 
 
 def case_unjson(j: Dict[str, Any]) -> Dict[str, Any]:
     return {"fields": j["fields"],
             "steps": [{"handle": s["handle"], "variant": s["variant"], "arg": s["arg"], "sid": s["sid"],
+                       "commit_fails": bool(s.get("commit_fails")),
                        "records": [dec_record(r) for r in s["records"]]} for s in j["steps"]]}
 
 
@@ -308,6 +311,10 @@ def run_case(case: Dict[str, Any], root: str, rng=None, filters_per_col: int = 2
         before = observe(root)
         arg_fields = step["arg"]
         ev: Dict[str, Any] = {"step": si, "variant": step["variant"], "handle": h}
+        if step.get("commit_fails"):
+            def failing_commit(*a, **k):
+                raise RuntimeError("injected commit failure (before the commit point)")
+            handle.metadata_manager.commit = failing_commit
         try:
             schema = Schema(schema_id=step["sid"], fields=copy.deepcopy(arg_fields)) if arg_fields is not None else None
             handle.append_records(copy.deepcopy(step["records"]), schema=schema)
@@ -316,6 +323,9 @@ def run_case(case: Dict[str, Any], root: str, rng=None, filters_per_col: int = 2
             ev["outcome"] = "rejected"
             ev["error"] = type(e).__name__
             ev["message"] = str(e)[:160]
+        finally:
+            if step.get("commit_fails"):
+                del handle.metadata_manager.commit
         after = observe(root)
         ev["files"] = [{"schema": f["schema"], "lo": f["lo"], "hi": f["hi"], "nrows": len(f["rows"]), "rows": f["rows"]} for f in after["files"]]
         ev["nsnaps"] = len(after["snapshots"])
@@ -376,11 +386,17 @@ def run_case(case: Dict[str, Any], root: str, rng=None, filters_per_col: int = 2
     return {"violations": violations, "trace": trace}
 
 
+BENIGN = ("omitted", "identical", "identical_new_sid", "required_key_dropped")
+
+
 def _last_accepted_variant(trace: List[Dict[str, Any]], ev: Dict[str, Any]) -> str:
-    for e in [ev] + trace[::-1]:
-        if e.get("outcome") == "accepted" and e["variant"] not in ("omitted", "identical"):
+    """Label for a violation: the most recent accepted append whose schema argument was not
+    equivalent to the table schema (falls back to the most recent accepted one)."""
+    acc = [e for e in [ev] + trace[::-1] if e.get("outcome") == "accepted"]
+    for e in acc:
+        if e["variant"] not in BENIGN:
             return e["variant"]
-    return "identical"
+    return acc[0]["variant"] if acc else "none"
 
 
 def _judge_rows(supplied: List[Tuple[Dict[str, str], Dict[str, Any]]], got: List[Dict[str, Any]]) -> Optional[Tuple[str, str]]:
@@ -562,6 +578,323 @@ def oracle_prebuilt(ctx) -> None:
     ctx.stats["prebuilt_cases"] = n
 
 
+# ---------------------------------------------------------------------------------- correspondence (model vs code)
+NAME_NUM = {"a": 0, "b": 1, "c": 2, "z": 3, "q": 4, "zz": 5}
+REQ_P = REQ + ["DS.Proofs.SchemaProofs"]
+
+
+def b2c(b: bool) -> str:
+    return "true" if b else "false"
+
+
+def field_coq(f: Dict[str, Any]) -> str:
+    return (f"{{| fid := ({f['id']})%Z; fname := {NAME_NUM[f['name']]}%Z; ftype := T_{f['type']}; "
+            f"freq := {b2c(bool(f.get('required', False)))} |}}")
+
+
+def fields_coq(fs: List[Dict[str, Any]]) -> str:
+    return "[" + "; ".join(field_coq(f) for f in fs) + "]"
+
+
+def ischema_coq(sid: int, fs: List[Dict[str, Any]]) -> str:
+    return f"{{| sid := ({sid})%Z; sfields := {fields_coq(fs)} |}}"
+
+
+def record_coq(r: Dict[str, Any]) -> str:
+    return "[" + "; ".join(f"({NAME_NUM[k]}%Z, {pyval_to_coq(v)})" for k, v in r.items()) + "]"
+
+
+def opt_pyval_coq(res: Tuple[str, Any]) -> str:
+    return f"(Some {pyval_to_coq(res[1])})" if res[0] == "ok" else "None"
+
+
+_REAL_ARROW: Dict[str, Any] = {}
+
+
+def real_arrow_type(ptype: str):
+    """The Arrow type the real _iceberg_type_to_arrow maps a primitive type to."""
+    if ptype not in _REAL_ARROW:
+        from datashard.data_operations import DataFileManager
+        _REAL_ARROW[ptype] = DataFileManager._iceberg_type_to_arrow(DataFileManager.__new__(DataFileManager), ptype)
+    return _REAL_ARROW[ptype]
+
+
+def real_conv(ptype: str, v: Any) -> Tuple[str, Any]:
+    """pyarrow's conversion of one cell for the column type (what from_pylist does per column)."""
+    import pyarrow as pa
+    try:
+        return ("ok", pa.array([v], type=real_arrow_type(ptype))[0].as_py())
+    except Exception as e:                           # noqa: BLE001
+        return ("raises", type(e).__name__)
+
+
+_TAGS: Dict[str, int] = {}
+
+
+def arrow_tags() -> Dict[str, int]:
+    """str(real arrow type) -> Gen atype_tag, via the regenerated arrow_of_type."""
+    if not _TAGS:
+        names = sorted(TYPES)
+        got = coqbuild.coq_eval(REQ, ["map (fun t => (ptype_tag t, atype_tag (arrow_of_type t))) all_ptypes"])[0]
+        for ptag, atag in got:
+            _TAGS[str(real_arrow_type(names[ptag]))] = atag
+    return _TAGS
+
+
+def q_coq(x: float) -> str:
+    from fractions import Fraction
+    fr = Fraction(x)
+    return f"(Qmake ({fr.numerator})%Z ({fr.denominator})%positive)"
+
+
+def rnd_tab_coq(values: List[Any]) -> str:
+    from harness.lib.values import num_to_coq
+    ents = []
+    for v in values:
+        if isinstance(v, float) and v == v and v not in (float("inf"), float("-inf")):
+            r = f32(v)
+            if r is not None:
+                ents.append(f"({q_coq(v)}, {num_to_coq(r)})")
+    return "[" + "; ".join(ents) + "]"
+
+
+def corr_accept_arrow(ctx) -> None:
+    """_validate_schema_against_table vs accept_schema; create_arrow_schema (fresh and cached) vs arrow_of / the cache."""
+    from datashard import create_table
+    from datashard.data_operations import DataFileManager
+    from datashard.data_structures import Schema
+    rng = ctx.rng
+    ntables = 14 if ctx.tier == "quick" else 120
+    acc_cases, acc_impl, acc_exprs = [], [], []
+    ar_cases, ar_impl, ar_exprs = [], [], []
+    tags = arrow_tags()
+    for ti in range(ntables):
+        fields = mk_fields(rng, rng.choice([1, 2, 3]))
+        root = os.path.join(ctx.scratch, "acc")
+        shutil.rmtree(root, ignore_errors=True)
+        table = create_table(root, Schema(schema_id=1, fields=copy.deepcopy(fields)))
+        tx = table.new_transaction().begin()
+        args = []
+        for vname in VARIANTS[1:]:
+            for _ in range(1 if ctx.tier == "quick" else 3):
+                v = make_variant(rng, fields, vname)
+                if v is not None:
+                    args.append((vname, v[0], v[1]))
+        # second-order mutations (variant of a variant)
+        for _ in range(4):
+            v1 = make_variant(rng, fields, rng.choice(VARIANTS[1:]))
+            if v1 is None:
+                continue
+            v2 = make_variant(rng, v1[0], rng.choice(VARIANTS[1:]))
+            if v2 is not None and len({f["name"] for f in v2[0]}) == len(v2[0]) and len({f["id"] for f in v2[0]}) == len(v2[0]):
+                args.append(("double", v2[0], v2[1]))
+        for vname, arg, sid in args:
+            try:
+                tx._validate_schema_against_table(Schema(schema_id=sid, fields=copy.deepcopy(arg)))
+                ok = True
+            except ValueError:
+                ok = False
+            acc_cases.append((vname, fields, arg))
+            acc_impl.append(ok)
+            acc_exprs.append(f"accept_schema {fields_coq(fields)} {fields_coq(arg)}")
+            ctx.count(1, ("accept", ti, vname, repr(arg)))
+        tx.rollback()
+        # create_arrow_schema through one manager: a sequence of calls with colliding / distinct schema ids
+        dfm = table.file_manager.data_file_manager
+        dfm._arrow_schema_cache.clear()
+        seq = [(sid, arg) for _, arg, sid in rng.sample(args, min(4, len(args)))]
+        cache = "[]"
+        impl_seq, model_parts = [], []
+        for sid, arg in seq:
+            a = dfm.create_arrow_schema(Schema(schema_id=sid, fields=copy.deepcopy(arg)))
+            impl_seq.append([(NAME_NUM[fl.name], tags[str(fl.type)], fl.nullable) for fl in a])
+        # model: thread the cache through the same calls
+        expr = "[]"
+        calls = "; ".join(ischema_coq(sid, arg) for sid, arg in seq)
+        expr = (f"snd (fold_left (fun st s => let (a, c) := create_arrow_schema (fst st) s in (c, (snd st ++ [aschema_tags a])%list)) "
+                f"[{calls}] (@nil (Z * aschema), @nil (list (Z * Z * bool))))")
+        ar_cases.append(seq)
+        ar_impl.append(impl_seq)
+        ar_exprs.append(expr)
+        ctx.count(1, ("arrow-seq", ti))
+    got = coqbuild.coq_eval(REQ, acc_exprs)
+    bad = [{"variant": c[0], "table": c[1], "arg": c[2], "impl_accepts": i, "model_accepts": g}
+           for c, i, g in zip(acc_cases, acc_impl, got) if i != g]
+    ctx.correspondence("accept", len(acc_cases), bad)
+    ctx.stats["accept_cases"] = len(acc_cases)
+    ctx.stats["accept_accepted"] = sum(1 for x in acc_impl if x)
+    got = coqbuild.coq_eval(REQ, ar_exprs)
+    bad = []
+    for seq, i, g in zip(ar_cases, ar_impl, got):
+        g2 = [[tuple(x) for x in a] for a in g]
+        if g2 != i:
+            bad.append({"calls": [(sid, arg) for sid, arg in seq], "impl": i, "model": g2})
+    ctx.correspondence("arrow+cache", len(ar_cases), bad)
+
+
+def corr_records(ctx) -> None:
+    """validate_records_strict vs validate_record; _value_fits vs value_fits; pyarrow vs canon (conv_sound, conv_kinds)."""
+    from datashard.data_operations import DataFileManager
+    from datashard.data_structures import Schema
+    rng = ctx.rng
+    dfm = DataFileManager.__new__(DataFileManager)
+    # (1) value_fits, exhaustively over types x pool
+    cases = [(t, v) for t in TYPES for v in POOL]
+    impl = [bool(DataFileManager._value_fits(t, v)) if hasattr(DataFileManager, "_value_fits") else True for t, v in cases]
+    got = coqbuild.coq_eval(REQ, [f"value_fits T_{t} {pyval_to_coq(v)}" for t, v in cases])
+    bad = [{"type": t, "value": enc(v), "impl": i, "model": g} for (t, v), i, g in zip(cases, impl, got) if i != g]
+    ctx.correspondence("value_fits", len(cases), bad)
+    for t, v in cases:
+        ctx.count(1, ("fits", t, repr(v)))
+    # (2) conv_sound / conv_kinds on every admitted value (admitted by the MODEL: the hypothesis' own premise)
+    admitted = [(t, v) for (t, v), g in zip(cases, got) if g]
+    rnd = rnd_tab_coq([v for _, v in admitted])
+    exprs, kept, raises = [], [], 0
+    for t, v in admitted:
+        res = real_conv(t, v)
+        if res[0] != "ok":
+            raises += 1
+            continue
+        kept.append((t, v, res[1]))
+        exprs.append(f"(pyval_eqb (canon (rnd_tab {rnd}) T_{t} {pyval_to_coq(v)}) {pyval_to_coq(res[1])}, "
+                     f"has_kind (kind_of_atype (arrow_of_type T_{t})) (bval {pyval_to_coq(res[1])}))")
+    got2 = coqbuild.coq_eval(REQ_P, exprs)
+    bad = [{"type": t, "value": enc(v), "pyarrow_stores": enc(r), "canon_equal": g[0], "kind_ok": g[1]}
+           for (t, v, r), g in zip(kept, got2) if not (g[0] and g[1])]
+    ctx.correspondence("conv_sound", len(kept), bad)
+    ctx.stats["conv_admitted"] = len(admitted)
+    ctx.stats["conv_pyarrow_raises_on_admitted"] = raises
+    # conv_kinds must also hold for values the library does NOT admit (it is stated for every conversion)
+    exprs, kept = [], []
+    for t, v in cases:
+        res = real_conv(t, v)
+        if res[0] == "ok":
+            kept.append((t, v, res[1]))
+            exprs.append(f"has_kind (kind_of_atype (arrow_of_type T_{t})) (bval {pyval_to_coq(res[1])})")
+    got3 = coqbuild.coq_eval(REQ_P, exprs)
+    bad = [{"type": t, "value": enc(v), "pyarrow_stores": enc(r)} for (t, v, r), g in zip(kept, got3) if not g]
+    ctx.correspondence("conv_kinds", len(kept), bad)
+    # (3) validate_records_strict on random batches
+    n = 150 if ctx.tier == "quick" else 1500
+    rcases, rimpl, rexprs = [], [], []
+    for _ in range(n):
+        fields = mk_fields(rng, rng.choice([1, 2, 3]))
+        recs = gen_records(rng, fields, 0.3)
+        if recs and recs[0] and rng.random() < 0.2:
+            del recs[0][rng.choice(list(recs[0].keys()))]
+        schema = Schema(schema_id=1, fields=copy.deepcopy(fields))
+        try:
+            dfm.validate_records_strict(copy.deepcopy(recs), schema)
+            ok = True
+        except ValueError:
+            ok = False
+        rcases.append((fields, recs))
+        rimpl.append(ok)
+        rexprs.append(f"forallb (validate_record {fields_coq(fields)}) [" + "; ".join(record_coq(r) for r in recs) + "]")
+        ctx.count(1, ("records", repr(fields), repr(recs)))
+    got4 = coqbuild.coq_eval(REQ, rexprs)
+    bad = [{"fields": f, "records": [enc_record(r) for r in rs], "impl": i, "model": g}
+           for (f, rs), i, g in zip(rcases, rimpl, got4) if i != g]
+    ctx.correspondence("records", len(rcases), bad)
+    ctx.stats["records_valid"] = sum(1 for x in rimpl if x)
+
+
+def _decode_bound_indep(raw: str) -> Any:
+    """Independent decoder of the tagged bound encoding written into manifests."""
+    p = json.loads(raw)
+    t, v = p["t"], p["v"]
+    if t == "bool":
+        return bool(v)
+    if t == "int":
+        return int(v)
+    if t == "float":
+        return float(v)
+    if t == "ts":
+        return dt.datetime.fromisoformat(v)
+    if t == "date":
+        return dt.date.fromisoformat(v)
+    if t == "time":
+        return dt.time.fromisoformat(v)
+    return str(v)
+
+
+def classify(ev: Dict[str, Any]) -> int:
+    if ev["outcome"] == "accepted":
+        return 0
+    msg = ev.get("message", "")
+    if msg.startswith("Provided schema does not match"):
+        return 2
+    if msg.startswith("No schema available"):
+        return 1
+    if ev.get("error") == "ValueError" and msg.startswith("Record "):
+        return 3
+    if msg.startswith("injected commit failure"):
+        return 5
+    return 4
+
+
+def corr_machine(ctx, runs: List[Tuple[Dict[str, Any], Dict[str, Any]]]) -> None:
+    """The e2e histories through the append machine, with pyarrow's observed conversions as the oracle."""
+    tags = arrow_tags()
+    exprs, kept, impl = [], [], []
+    for case, res in runs:
+        if not res["trace"] or any(k.startswith(("scan-raises", "rows-differ")) for k, _ in res["violations"]) and False:
+            continue
+        steps = case["steps"][:len(res["trace"])]
+        # conversion table: every type in play x every cell value in play
+        ptypes = {f["type"] for f in case["fields"]}
+        values: List[Any] = [None]
+        for st in steps:
+            for f in (st["arg"] or []):
+                ptypes.add(f["type"])
+            for r in st["records"]:
+                for v in r.values():
+                    if not any(same_cell(v, w) and type(v) is type(w) for w in values):
+                        values.append(v)
+        tab = []
+        for t in sorted(ptypes):
+            for v in values:
+                tab.append(f"(arrow_of_type T_{t}, {pyval_to_coq(v)}, {opt_pyval_coq(real_conv(t, v))})")
+        conv = "(conv_tab [" + "; ".join(tab) + "])"
+        fresh_id = 10
+        evs = []
+        obs = []
+        for st, ev in zip(steps, res["trace"]):
+            if st["handle"] == "fresh":
+                h = fresh_id
+                fresh_id += 1
+            else:
+                h = {"A": 0, "B": 1}[st["handle"]]
+            arg = f"(Some {ischema_coq(st['sid'], st['arg'])})" if st["arg"] is not None else "None"
+            recs = "[" + "; ".join(record_coq({k: v for k, v in r.items()}) for r in st["records"]) + "]"
+            real_files = []
+            for f in ev["files"]:
+                footer = "[" + "; ".join(f"({NAME_NUM[n]}%Z, {tags[ty]}%Z, {b2c(nl)})" for n, ty, nl in f["schema"]) + "]"
+                rows = "[" + "; ".join("[" + "; ".join(f"({NAME_NUM[k]}%Z, {pyval_to_coq(v)})" for k, v in r.items()) + "]" for r in f["rows"]) + "]"
+                lo = "[" + "; ".join(f"(({int(k)})%Z, {val_to_coq(_decode_bound_indep(v))})" for k, v in (f["lo"] or {}).items()) + "]"
+                hi = "[" + "; ".join(f"(({int(k)})%Z, {val_to_coq(_decode_bound_indep(v))})" for k, v in (f["hi"] or {}).items()) + "]"
+                real_files.append(f"({footer}, {rows}, {lo}, {hi})")
+            evs.append(f"({{| e_handle := {h}%Z; e_arg := {arg}; e_recs := {recs}; e_commit_ok := {b2c(not st.get('commit_fails'))} |}}, "
+                       f"[{'; '.join(real_files)}])")
+            obs.append((classify(ev), ev["nsnaps"], ev["store"], len(ev["files"]), True, ev["scan"] != "raises"))
+        exprs.append(f"trace {conv} (init (Some {ischema_coq(1, case['fields'])})) [{'; '.join(evs)}]")
+        kept.append(case)
+        impl.append(obs)
+    got = coqbuild.coq_eval(REQ, exprs, chunk=8)
+    bad = []
+    nsteps = 0
+    for case, i, g in zip(kept, impl, got):
+        g2 = [tuple(x) for x in g]
+        nsteps += len(i)
+        if g2 != i:
+            k = next((n for n, (a, b) in enumerate(zip(i, g2)) if a != b), None)
+            bad.append({"case": case_json(case), "first_differing_step": k,
+                        "impl (outcome, snapshots, stored files, current files, files match, scan ok)": i[k] if k is not None else i,
+                        "model": g2[k] if k is not None else g2})
+    ctx.correspondence("machine", len(kept), bad)
+    ctx.stats["machine_steps"] = nsteps
+
+
 # ---------------------------------------------------------------------------------- driver
 def run(ctx) -> None:
     ctx.rule = ("e2e: random histories (3-6 append attempts) over 1-3 column schemas of 12 primitive types x 13 schema-argument "
@@ -582,7 +915,14 @@ def run(ctx) -> None:
     ctx.allow_axioms([])
     oracle_cells(ctx)
     oracle_prebuilt(ctx)
-    oracle_e2e(ctx)
+    runs = oracle_e2e(ctx)
+    # correspondence needs the model to build
+    try:
+        corr_accept_arrow(ctx)
+        corr_records(ctx)
+        corr_machine(ctx, runs)
+    except RuntimeError as e:
+        ctx.proof_problems.append("model evaluation failed: " + str(e)[:600])
 
 
 def replay(ctx, payload) -> int:
